@@ -154,7 +154,7 @@ def canon_state(r, ch, ec):
         kids.append("[%d,%d,%d,%d,%d,%s]" % (a.getNum(), c[0], c[1], getattr(a, "_verifSrc", -1),
                                               int(round(float(a[0].p.orientation[2]))), common.ratlist(par_of(a))))
     sfp = r.excore.get("sfp")
-    skip = set(getattr(r, "_verifExtraA", {}).values()) | ({id(a) for a in sfp} if sfp is not None else set())
+    skip = set(getattr(r, "_verifExtraA", {}).values()) | {i for (i, _, _) in (getattr(r, "_verifSfp", None) or [])}
     names = sorted(v.getNum() for v in core.assembliesByName.values() if id(v) not in skip)
     return "full=%s next=%d convAdded=%s edgeAdded=%s kids=[%s] names=%s" % (
         "T" if core.isFullCore else "F", int(r.p.maxAssemNum),
